@@ -93,11 +93,21 @@ def reveal_sites(b):
         res = f.get("resolved") or ""
         path = f["path"]
         recv_hash = is_hashy(at) or is_hashy(st)
+        # generic: the call *produces* an iterator type of the hash_map / hash_set modules
+        dty = b.local_ty(t["dest"]["l"]) if "p" not in t["dest"] else ""
+        if ("std::collections::hash_map::" in dty or "std::collections::hash_set::" in dty or "hashbrown::" in dty) \
+                and "Entry" not in dty and "RandomState" not in dty.split("<")[0] and not dty.startswith("std::option::Option<") \
+                and name not in ("iter", "iter_mut", "keys", "values", "values_mut", "into_keys", "into_values", "drain",
+                                 "extract_if", "difference", "intersection", "union", "symmetric_difference", "into_iter",
+                                 "clone", "default", "new"):
+            out.append((i, t, "produces:" + name))
+            continue
         if not recv_hash and not is_hashy(res) and not is_hashy(path):
             if "elsa::" in path and name not in ("get", "insert", "new", "default", "len", "is_empty", "get_copy", "map_get", "with_hasher", "as_mut", "get_key_value"):
                 out.append((i, t, "frozenmap:" + name))
             continue
-        if name in ("iter", "iter_mut", "keys", "values", "values_mut", "into_keys", "into_values", "drain", "extract_if", "retain"):
+        if name in ("iter", "iter_mut", "keys", "values", "values_mut", "into_keys", "into_values", "drain", "extract_if", "retain",
+                    "difference", "intersection", "union", "symmetric_difference"):
             if "::Entry" in path or "::OccupiedEntry" in path:
                 continue
             out.append((i, t, name))
